@@ -103,7 +103,7 @@ def _check_db(model_res, out: list, label: str = '') -> None:
             return
 
 
-_REL_KEYS = ('relation_map', 'relations', 'get_related', 'related_synsets',
+_REL_KEYS = ('relation_map', 'relations', 'get_related', 'related_synsets', 'inferred_next',
              'related_synsets_by_type', 'hypernyms', 'hyponyms')
 
 
